@@ -1,6 +1,8 @@
 import MithrilModel.Proto
 import MithrilModel.Blake2
 import MithrilModel.RegModel
+import MithrilModel.RegPaths
+import MithrilModel.RegService
 namespace Handlers.C06
 open Proto RegModel RegClose
 
@@ -19,8 +21,125 @@ def closeReq (r : Req) : Option String := do
     | .overflow => "err overflow"
     | .zero => "err zero")
 
+/-! ### node-level layers: aggregator epoch service (`c06.service`), client message (`c06.message`), signer (`c06.signer`) -/
+
+def showBuildErr : RegPaths.BuildErr → String
+  | .empty => "empty" | .unknownParty => "unknownParty" | .dupKey => "dupKey" | .overflow => "overflow" | .zero => "zero"
+
+def showKey (b : RegPaths.Built) : String :=
+  let (root, n, total) := b.key H
+  s!"{hexEncode root}:{n}:{total}"
+
+def showRes : RegService.Res → String
+  | .ok => "ok" | .badEpoch => "err:epoch" | .panic => "panic" | .notInit => "err:notinit"
+  | .buildCur e => "err:cur:" ++ showBuildErr e
+  | .buildNext e => "err:next:" ++ showBuildErr e
+
+def parseServiceOp (keys : List Nat) : Val → Option RegService.Op
+  | .l [.s "save", ep, party, k, stake] => do
+    pure (.save { epoch := ← ep.nat?, party := ← party.nat?, vk := ← keys[← k.nat?]?, stake := ← stake.nat? })
+  | .l [.s "prune", ep] => do pure (.prune (← ep.nat?))
+  | .l [.s "inform", ep] => do pure (.inform (← ep.nat?))
+  | .l [.s "update"] => some .updateNext
+  | .l [.s "precompute"] => some .precompute
+  | _ => none
+
+def keyIdx (keys : List Nat) (vk : Nat) : Nat := keys.findIdx (· == vk)
+
+def showSigners (keys : List Nat) (l : List RegPaths.Signer) : String :=
+  "[" ++ String.intercalate "," (l.map fun s => s!"{s.party}:{keyIdx keys s.vk}:{s.stake}") ++ "]"
+
+/-- slots as the harness can probe them: a signature made over the reported list verifies under the multi-signer
+only if the multi-signer IS the one of that list -/
+def showSlots (l : List RegPaths.Signer) (b : RegPaths.Built) : String :=
+  let probe := match RegPaths.build l with
+    | .ok b' => b' == b
+    | .error _ => false
+  "[" ++ String.intercalate "," (l.map fun s =>
+    if probe then (match b.slot s.entry with | some i => toString i | none => "x") else "x") ++ "]"
+
+/-- memo of the key texts (the Merkle root is the expensive part) -/
+abbrev KeyMemo := List (RegPaths.Built × String)
+
+def keyText (m : KeyMemo) (b : RegPaths.Built) : KeyMemo × String :=
+  match m.find? (·.1 == b) with
+  | some (_, t) => (m, t)
+  | none => let t := showKey b; ((b, t) :: m, t)
+
+def observeService (keys : List Nat) (m : KeyMemo) (s : RegService.St) (withSlots : Bool) : KeyMemo × String :=
+  let (m, ck, nk) : KeyMemo × String × String :=
+    match s.computed with
+    | some c => let (m1, a) := keyText m c.cur; let (m2, b) := keyText m1 c.next; (m2, a, b)
+    | none => (m, (if s.data.isSome then "nc" else "ui"), (if s.data.isSome then "nc" else "ui"))
+  match s.data with
+  | none => (m, s!"ui;ck={ck};nk={nk}")
+  | some d =>
+    let (cs, ns) := match s.computed with
+      | some c => if withSlots then (showSlots d.cur c.cur, showSlots d.next c.next) else ("-", "-")
+      | none => ("nc", "nc")
+    (m, s!"c={showSigners keys d.cur};n={showSigners keys d.next};ns={showNats d.nextSnap};t={d.totalCur},{d.totalNext};ck={ck};nk={nk};cs={cs};nsl={ns}")
+
+/-- `c06.service keys=[hex…] ops=[(save,ep,party,key,stake)|(prune,ep)|(inform,ep)|(update)|(precompute)…]`
+→ per step `<result>;<observation>` joined by ` | ` -/
+def serviceReq (r : Req) : Option String := do
+  let keys ← (← r.list "keys").mapM fun k => do pure (beNat (← hexDecode (← k.str?)))
+  let ops ← (← r.list "ops").mapM (parseServiceOp keys)
+  let n := ops.length
+  let (_, _, out) := ops.foldl (fun (acc : RegService.St × KeyMemo × List String) op =>
+    let (s, m, out) := acc
+    let (s', res) := RegService.step s op
+    -- the harness probes the slots after the service calls and at the end of the history
+    let serviceCall := match op with | .save _ => false | .prune _ => false | _ => true
+    let (m', o) := observeService keys m s' (serviceCall || out.length + 1 == n)
+    (s', m', (showRes res ++ ";" ++ o) :: out)) ({}, [], [])
+  pure (String.intercalate " | " out.reverse)
+
+def hexOfString (t : String) : String := hexEncode t.toUTF8.toList
+
+def parseEntries (r : Req) : Option (List RegPaths.Signer) := do
+  (← r.list "entries").mapM fun e =>
+    match e with
+    | .l [party, pool, k, s] => do
+      pure { party := ← party.nat?, pool := ← pool.nat?, vk := beNat (← hexDecode (← k.str?)), stake := ← s.nat? }
+    | _ => none
+
+/-- `c06.message entries=[(party,pool,vkhex,stake)…]` (list order) → `ok <NextAggregateVerificationKey part>` / `err <class>`:
+the client's `compute_mithril_stake_distribution_message` -/
+def messageReq (r : Req) : Option String := do
+  let l ← parseEntries r
+  pure (match RegPaths.build l with
+    | .ok b => "ok " ++ hexOfString (RegPaths.keyJson (b.key H))
+    | .error e => "err " ++ showBuildErr e)
+
+/-- `c06.signer self=(vkhex,stake) signers=[(party,pool,vkhex)…] stakes=[(party,stake)…]` → the signer's path:
+`ok <root>:<n>:<total> slot=<signer_index>` / `err nostake` / `err build:<class>` / `err unregistered` -/
+def signerReq (r : Req) : Option String := do
+  let self ← match ← r.get? "self" with
+    | .l [k, s] => do pure (({ stake := ← s.nat?, vk := beNat (← hexDecode (← k.str?)) } : Entry))
+    | _ => none
+  let signers ← (← r.list "signers").mapM fun e =>
+    match e with
+    | .l [party, pool, k] => do pure (← party.nat?, ← pool.nat?, beNat (← hexDecode (← k.str?)))
+    | _ => none
+  let stakes ← (← r.list "stakes").mapM fun e =>
+    match e with
+    | .l [p, s] => do pure (← p.nat?, ← s.nat?)
+    | _ => none
+  pure (match RegPaths.associate stakes signers with
+    | none => "err nostake"
+    | some l =>
+      match RegPaths.build l with
+      | .error e => "err build:" ++ showBuildErr e
+      | .ok b =>
+        match b.slot self with
+        | none => "err unregistered"
+        | some i => s!"ok {showKey b} slot={i}")
+
 def handle (r : Req) : Option String :=
   match r.op with
   | "c06.close" => closeReq r
+  | "c06.service" => serviceReq r
+  | "c06.message" => messageReq r
+  | "c06.signer" => signerReq r
   | _ => none
 end Handlers.C06
